@@ -735,7 +735,9 @@ func (w *WAL) AppendBatch(entries []*Entry) (uint64, error) {
 	// Now write all entries atomically (no intermediate flushes)
 	// All entries in the batch share the same sequence number
 	for i, entry := range entries {
-		// Write the entry using its original type and the same sequence number
+		// Write the entry using its original type and the same sequence number,
+		// and record that number in the entry handed to the observers
+		entry.SequenceNumber = startSeqNum
 		if err := w.writeRecord(RecordTypeFull, entry.Type, startSeqNum, entry.Key, entry.Value); err != nil {
 			return 0, fmt.Errorf("failed to write entry %d: %w", i, err)
 		}
@@ -829,7 +831,9 @@ func (w *WAL) AppendBatchWithSequence(entries []*Entry, startSequence uint64) (u
 	// Now write all entries atomically (no intermediate flushes)
 	// All entries in the batch share the same sequence number
 	for i, entry := range entries {
-		// Write the entry using its original type and the same sequence number
+		// Write the entry using its original type and the same sequence number,
+		// and record that number in the entry handed to the observers
+		entry.SequenceNumber = startSeqNum
 		if err := w.writeRecord(RecordTypeFull, entry.Type, startSeqNum, entry.Key, entry.Value); err != nil {
 			return 0, fmt.Errorf("failed to write entry %d: %w", i, err)
 		}
